@@ -6,6 +6,10 @@ M, RMAX = S.M, S.RMAX
 AMBIENT = [("dps", 3), ("dps", 15), ("dps", 30), ("dps", 50), ("dps", 200),
            ("prec", 24), ("prec", 53), ("prec", 64), ("workdps", 5), ("workdps", 100),
            ("workprec", 20),
+           # precisions right around what the exact totals need (products of 32-bit numbers: 62..66 bits):
+           # a conditional "raise the precision only if it is too low" with a threshold one bit short lives here
+           ("prec", 61), ("prec", 62), ("prec", 63), ("prec", 64), ("prec", 65), ("prec", 66), ("dps", 18), ("dps", 19),
+           ("dps", 20),
            # the caller's `decimal` context is an ambient arbitrary-precision setting as well
            ("decimal", 9), ("decimal", 5), ("decimal-trap-inexact", 28)]
 
